@@ -115,7 +115,7 @@ func keyPool(r *rand.Rand, epn int, focus string) []TV {
 func valPool() []TV {
 	vs := []TV{tvNull(), tvI(0), tvI(1), tvI(-1), tvI(42), tvI(math.MaxInt64), tvI(math.MinInt64), tvI(1 << 53), tvI(1<<53 + 1),
 		tvR(0.5), tvR(-2.25), tvR(1e308), tvR(5e-324), tvR(math.Inf(1)), tvR(math.Inf(-1)), tvR(1.0), tvR(3.0),
-		tvS(""), tvS("x"), tvS("hello"), tvS("héllo ✓"), tvS("a\x00b"), tvS(strings.Repeat("long", 64)), tvS("1"), tvS(" "),
+		tvS(""), tvS("x"), tvS("X"), tvS("x "), tvS("hello"), tvS("HELLO"), tvS("héllo ✓"), tvS("a\x00b"), tvS(strings.Repeat("long", 64)), tvS("1"), tvS(" "),
 		tvB([]byte{}), tvB([]byte{0}), tvB([]byte{1, 2, 3}), tvB([]byte("bytes")), tvB(make([]byte, 300))}
 	return vs
 }
@@ -204,6 +204,16 @@ func genTwin(r *rand.Rand, focus string) *TwinParams {
 				args = append(args, a)
 			}
 			return strings.Join(terms, " AND "), args
+		case 13:
+			// comparisons under a collation other than BINARY: rows that compare equal (or inside the range)
+			// under it lie outside the binary window of the operand
+			t := []TV{tvS("hello"), tvS("HELLO"), tvS("x"), tvS("X"), tvS("x "), tvS("Hello  "), tvS("1"), tvS(" ")}
+			op := []string{"=", "<", "<=", ">", ">="}[r.IntN(5)]
+			coll := []string{"NOCASE", "NOCASE", "RTRIM"}[r.IntN(3)]
+			if r.IntN(2) == 0 {
+				return "k " + op + " ? COLLATE " + coll, []TV{t[r.IntN(len(t))]}
+			}
+			return "k COLLATE " + coll + " " + op + " ?", []TV{t[r.IntN(len(t))]}
 		case 12:
 			// constraints on other columns next to the key constraints, before and after them: the table uses
 			// only the key ones, and the numbering of the arguments it asks for must not depend on where they stand
@@ -280,7 +290,19 @@ func genTwin(r *rand.Rand, focus string) *TwinParams {
 			add(TwinStep{Kind: "write", SQL: "DELETE FROM {T} WHERE " + w, Args: a})
 		case c < 16: // select
 			w, a := pred()
-			switch r.IntN(7) {
+			switch r.IntN(9) {
+			case 7:
+				// orderings with more than one term, and the clauses SQLite hands to a table the same way
+				// (GROUP BY, DISTINCT); a key term makes the order total, so the results compare as sequences
+				col := p.Cols[r.IntN(len(p.Cols))]
+				tail := []string{"ORDER BY k, " + col, "ORDER BY " + col + ", k", "ORDER BY " + col + " DESC, k DESC", "ORDER BY k DESC, " + col}[r.IntN(4)]
+				add(TwinStep{Kind: "query", SQL: "SELECT * FROM {T} WHERE " + w + " " + tail, Args: a, Ord: true})
+			case 8:
+				col := p.Cols[r.IntN(len(p.Cols))]
+				q := []string{"SELECT " + col + ", count(*), min(k) FROM {T} WHERE " + w + " GROUP BY " + col + ", typeof(k)",
+					"SELECT DISTINCT " + col + ", typeof(k) FROM {T} WHERE " + w,
+					"SELECT k, " + col + " FROM {T} WHERE " + w + " GROUP BY k, " + col}[r.IntN(3)]
+				add(TwinStep{Kind: "query", SQL: q, Args: a})
 			case 0:
 				add(TwinStep{Kind: "query", SQL: "SELECT * FROM {T} WHERE " + w + " ORDER BY k", Args: a, Ord: true})
 			case 1:
